@@ -210,7 +210,7 @@ macro_rules! c12_on {
 }
 
 pub fn case(cx: &mut Cx, rng: &mut Rng) -> R {
-    let nmax = if cx.small { 6 } else if rng.chance(1, 10) { 14 } else { 9 };
+    let nmax = if cx.small { 6 } else if rng.chance(1, if cx.thorough { 40 } else { 150 }) { 70 } else if rng.chance(1, 10) { 14 } else { 9 };
     let (lo, hi) = match rng.below(3) {
         0 => (1, 2),
         1 => (0, 9),
